@@ -26,6 +26,8 @@ pub struct Case {
     pub argv: Vec<Vec<u8>>,
     pub expect: Expect,
     pub scenario: &'static str,
+    /// names of the commands of the choice (not of an enclosing command)
+    pub inner_cmds: Vec<String>,
 }
 
 #[derive(Clone, Copy, Debug, PartialEq, Eq)]
@@ -99,6 +101,7 @@ pub fn decode(bytes: &[u8], only_help: bool) -> Case {
     let n_cmd = 1 + usize::from(u.chance(80));
     let mut cmds: Vec<(CmdSpec, NamedSpec, Option<NamedSpec>)> = Vec::new();
     let mut nums: Vec<NamedSpec> = Vec::new();
+    let mut has_pos: Vec<bool> = Vec::new();
     let mut branches: Vec<Node> = vec![p_branch];
     for k in 0..n_cmd {
         let name = names.cmd(&mut u);
@@ -149,6 +152,22 @@ pub fn decode(bytes: &[u8], only_help: bool) -> Case {
             },
         });
         nums.push(own_num);
+        // and sometimes a typed positional of its own at the end
+        let own_pos = u.chance(100);
+        if own_pos {
+            own_fields.push(Node::Optional {
+                n: Node::Pos(PosSpec {
+                    id: names.id(),
+                    metavar: "COUNT".into(),
+                    ty: Ty::U32,
+                    help: None,
+                    strict: Strictness::Unrestricted,
+                })
+                .b(),
+                catch: false,
+            });
+        }
+        has_pos.push(own_pos);
         let mut level = Level::simple(Node::Seq(own_fields));
         level.info.header = Some(DocSpec::plain(format!("InsideCmd{}Marker", k)));
         let short = if u.chance(60) { names.cmd_short(&mut u) } else { None };
@@ -279,7 +298,11 @@ pub fn decode(bytes: &[u8], only_help: bool) -> Case {
                         Alias::Short(ch) => format!("-{}", ch),
                         Alias::Long(l) => format!("--{}", l),
                     };
-                    if u.bool() {
+                    if has_pos[k] && u.bool() {
+                        // a word that is not a number where the command expects one: the other
+                        // branch could take the whole line as words, and must not
+                        argv.push(b"1x".to_vec());
+                    } else if u.bool() {
                         argv.push(format!("{}=1x", name).into_bytes());
                     } else {
                         argv.push(name.into_bytes());
@@ -329,18 +352,38 @@ pub fn decode(bytes: &[u8], only_help: bool) -> Case {
             }
         }
     };
+    // sometimes the whole level sits below an outer command (depth 2)
+    let (level, argv) = if u.chance(90) {
+        let outer = names.cmd(&mut u);
+        let mut a = vec![outer.as_bytes().to_vec()];
+        a.extend(argv);
+        let mut top = Level::simple(Node::Seq(vec![Node::Alt(vec![Node::Cmd(Box::new(CmdSpec {
+            name: outer,
+            shorts: Vec::new(),
+            longs: Vec::new(),
+            help: None,
+            adjacent: false,
+            level,
+        }))])]));
+        top.info.header = Some(DocSpec::plain("OutermostLevelMarker"));
+        (top, a)
+    } else {
+        (level, argv)
+    };
     Case {
         level,
         argv,
         expect,
         scenario,
+        inner_cmds: cmds.iter().map(|c| c.0.name.clone()).collect(),
     }
 }
 
 /// the command value inside a result, if any
 pub fn find_cmd(v: &V) -> Option<(&str, &V)> {
     match v {
-        V::Cmd(n, inner) => Some((n.as_str(), inner)),
+        // the innermost command
+        V::Cmd(n, inner) => find_cmd(inner).or(Some((n.as_str(), inner))),
         V::Opt(Some(x)) | V::Alt(_, x) => find_cmd(x),
         V::List(xs) | V::Tup(xs) => xs.iter().find_map(find_cmd),
         _ => None,
@@ -395,7 +438,7 @@ pub fn check(case: &Case, ctx: &mut crate::engine::Ctx) -> crate::engine::Verdic
         },
         (Expect::Cmd { .. }, _) => Verdict::fail("words-or-command/command-not-entered", describe()),
         (Expect::Words(ws), Outcome::Value(v)) => {
-            if find_cmd(v).is_some() {
+            if find_cmd(v).map_or(false, |(n, _)| case.inner_cmds.iter().any(|c| c == n)) {
                 return Verdict::fail("words-or-command/command-entered-without-its-name", describe());
             }
             let mut leaves = Vec::new();
@@ -455,6 +498,7 @@ pub fn reg_fallback_cmd_surplus(ctx: &mut crate::engine::Ctx) -> crate::engine::
         argv: vec![b"run".to_vec(), b"zzextra".to_vec()],
         expect: Expect::Reject,
         scenario: "command+surplus-word",
+        inner_cmds: vec!["run".into()],
     };
     check(&case, ctx)
 }
@@ -469,6 +513,7 @@ pub fn reg_fallback_cmd_help(ctx: &mut crate::engine::Ctx) -> crate::engine::Ver
             outside: "ParentLevelMarker".into(),
         },
         scenario: "command+help",
+        inner_cmds: vec!["run".into()],
     };
     check(&case, ctx)
 }
